@@ -43,7 +43,7 @@ CFG = RT.Config(ID, CLASSES, check, weights=_W, allow_string_interp=False, allow
 
 
 def plan(tier):
-    return {"shards": 16, "examples": 700 if tier == "quick" else 20000, "wall_limit": 240 if tier == "quick" else 2400}
+    return {"shards": 16, "examples": 2800 if tier == "quick" else 20000, "wall_limit": 240 if tier == "quick" else 2400}
 
 
 def run_shard(sh):
